@@ -101,6 +101,8 @@ FUNCS = [
     ("rtrlib/rtr/packets.c", "rtr_send_reset_query", {"xworld": "struct rtr_socket"}),
     ("rtrlib/rtr/packets.c", "rtr_pdu_convert_footer_byte_order", {"mem": ["pdu"], "writes": True, "memlocals": ["addr6"]}),
     ("rtrlib/rtr/rtr.c", "rtr_init", {"ident": ["tr", "pfx_table", "spki_table", "fp", "fp_param_config", "fp_param_group"]}),
+    ("rtrlib/rtr/packets.c", "rtr_pdu_to_network_byte_order", {"mem": ["pdu"], "writes": True}),
+    ("rtrlib/rtr/packets.c", "rtr_pdu_footer_to_host_byte_order", {"mem": ["pdu"], "writes": True}),
 ]
 
 LISTED = set(f[1] for f in FUNCS)
